@@ -150,6 +150,112 @@ def work_replay(job):
     return [run_case(c["scn"], c["legacy"])]
 
 
+# ---------------------------------------------------------------- composed pipeline (state_hold + guards)
+def gen_pipe(r, sid):
+    base = gen_scenario(r, sid, masked=False)
+    # own timeline: changes of a (mostly flipping its value, so that the expression often turns true) and of b,
+    # on even seconds; holds are odd so that an expiry never coincides with an event
+    evs, t = [], 0
+    cur = {"a": base["init"]["a"]["v"], "b": base["init"]["b"]["v"]}
+    while True:
+        t += r.choice([2, 2, 4, 6])
+        if t >= 60:
+            break
+        e = "a" if r.random() < 0.65 else "b"
+        v = ("1" if cur[e] == "0" else "0") if r.random() < 0.8 else cur[e]
+        cur[e] = v
+        evs.append({"t": t, "k": "set", "e": e, "s": {"v": v, "x": r.choice("ppq")}})
+    wins = []
+    for w in base["wins"][:r.choice([0, 0, 1, 1, 2])]:
+        wins.append(dict(w, s=BASE_S + 2 * (w["s"] - BASE_S) if BASE_S <= w["s"] <= BASE_S + 40 else w["s"],
+                         e=BASE_S + 2 * (w["e"] - BASE_S) if BASE_S <= w["e"] <= BASE_S + 40 else w["e"]))
+    return {"sid": sid, "S": r.choice([NONE, 3, 3, 5]), "wins": wins, "ho": r.choice([NONE, NONE, 0, 4, 7]),
+            "sa": r.choice(SA_FORMS), "taFirst": base["taFirst"], "init": base["init"], "events": evs, "horizon": 70}
+
+
+def pipe_source(scn):
+    kw = ", state_hold=%d" % scn["S"] if scn["S"] != NONE else ""
+    decs = ['@state_trigger("pyscript.a == \'1\'"%s)' % kw]
+    ta = None
+    if scn["wins"] or scn["ho"] != NONE:
+        args = ['"%srange(%s, %s)"' % ("not " if w["neg"] else "", hms(w["s"]), hms(w["e"])) for w in scn["wins"]]
+        if scn["ho"] != NONE:
+            args.append("hold_off=%d" % scn["ho"])
+        ta = "@time_active(%s)" % ", ".join(args)
+    sa = '@state_active("%s")' % scn["sa"]["src"] if scn["sa"] else None
+    guards = [x for x in ((ta, sa) if scn["taFirst"] else (sa, ta)) if x]
+    return "\n".join(decs + guards) + "\ndef f(value=None, old_value=None, **kw):\n    vf.rec('run', value, old_value)\n"
+
+
+def run_pipe(scn, legacy):
+    import asyncio
+    import world
+    res = {}
+
+    async def pre(hass):
+        for e, s in scn["init"].items():
+            hass.states.async_set("pyscript." + e, s["v"], {"x": s["x"]})
+
+    async def body(w):
+        start = w.loop.time()
+        w.take()
+        for ev in scn["events"]:
+            d = ev["t"] - (w.loop.time() - start)
+            if d > 0:
+                await asyncio.sleep(d)
+            w.hass.states.async_set("pyscript." + ev["e"], ev["s"]["v"], {"x": ev["s"]["x"]})
+            await w.settle()
+        d = scn["horizon"] - (w.loop.time() - start)
+        if d > 0:
+            await asyncio.sleep(d)
+        await w.settle()
+        t_rel = start - w.t0
+        res["recs"] = [(tt - t_rel, a) for (tt, a, _) in w.take()]
+
+    world.run({"hello.py": pipe_source(scn)}, body, legacy=legacy, pre=pre)
+    runs = [{"t": int(round((BASE_S + tt) * 1000)), "v": "-" if a[1] is None else str(a[1]), "ov": "-" if a[2] is None else str(a[2])}
+            for (tt, a) in res["recs"]]
+    g = {"sa": scn["sa"]["tree"] if scn["sa"] else {"k": "none"},
+         "ta": [{"neg": w["neg"], "s": (w["s"] % 86400) * 1000, "e": (w["e"] % 86400) * 1000} for w in scn["wins"]],
+         "ho": NONE if scn["ho"] == NONE else scn["ho"] * 1000, "taFirst": scn["taFirst"]}
+    return {"id": "pipe/%s/%s" % (scn["sid"], "legacy" if legacy else "dm"), "S": NONE if scn["S"] == NONE else scn["S"] * 1000, "g": g,
+            "init": scn["init"], "events": [{"t": (BASE_S + e["t"]) * 1000, "e": e["e"], "s": e["s"]} for e in scn["events"]],
+            "horizon": (BASE_S + scn["horizon"]) * 1000, "runs": runs, "legacy": legacy, "scn": scn}
+
+
+def work_pipe(job):
+    r = random.Random(job["seed"])
+    out = []
+    for k in range(job["count"]):
+        scn = gen_pipe(r, "%d.%d" % (job["seed"], k))
+        for legacy in (False, True):
+            out.append(run_pipe(scn, legacy))
+    return out
+
+
+def work_pipe_replay(job):
+    c = job["case"]
+    return [run_pipe(c["scn"], c["legacy"])]
+
+
+def validate_pipe(ctx, cases, label):
+    path = os.path.join(ctx.scratch, "c07_pipe_%s.json" % label)
+    json.dump([{k: v for k, v in c.items() if k not in ("scn", "legacy")} for c in cases], open(path, "w"))
+    res = tlc.accept_batch("PipeTrace", path, ctx.scratch)
+    if res.distinct != len(cases) + 1:
+        raise MachineryFailure("PipeTrace visited %d states for %d cases" % (res.distinct, len(cases)))
+    ctx.add_tlc(res, "PipeTrace:" + label)
+    ctx.cov["traces_validated_against_impl"] += len(cases)
+    byid = {c["id"]: c for c in cases}
+    for rj in res.rejects:
+        c = byid[rj["id"]]
+        sub = "legacy" if c["legacy"] else "dm"
+        ctx.report({"clause": "pipeline", "subsystem": sub, "hold": c["S"] != NONE},
+                   "state_hold + guards: recorded runs are not those of the composed pipeline [%s]" % sub,
+                   {"pipe": True, "case": c, "expected": rj.get("exp"), "observed": rj.get("obs")})
+    return res
+
+
 WHAT = {
     "ta-per-argument": "each @time_active argument is checked on its own: an occurrence inside a negated window (or outside other positive windows) runs as soon as one argument is satisfied",
     "holdoff-from-passed-window": "hold_off is measured from the last occurrence that passed @time_active even though @state_active then rejected it",
@@ -209,6 +315,10 @@ def selftest(ctx, cases):
 def main(ctx):
     if ctx.replay:
         rp = json.load(open(ctx.replay))
+        if rp["case"].get("pipe"):
+            cases = run_workers("harness.drivers.c07", "work_pipe_replay", [{"case": rp["case"]["case"]}], ctx.scratch, nproc=1)
+            validate_pipe(ctx, [x for r in cases for x in r], "replay")
+            return
         cases = run_workers("harness.drivers.c07", "work_replay", [{"case": rp["case"]["case"]}], ctx.scratch, nproc=1)
         validate(ctx, [x for r in cases for x in r], "replay")
         return
@@ -241,6 +351,13 @@ def main(ctx):
     ctx.cov["witnesses_violated_as_expected"] = len(wnames)
     cases = [x for r in outs[4] for x in r]
     res, nm = validate(ctx, cases, "main")
+    # composed pipeline: state_hold + @state_active / @time_active / hold_off (guards evaluated when the hold ends,
+    # on the values of the change that started it)
+    pjobs = [{"seed": ctx.seed * 1000 + 700 + k, "count": ctx.pick(12, 150)} for k in range(12)]
+    pcases = [x for r in run_workers("harness.drivers.c07", "work_pipe", pjobs, ctx.scratch, nproc=12) for x in r]
+    validate_pipe(ctx, pcases, "main")
+    ctx.cov["pipeline_cases"] = len(pcases)
+    ctx.cov["pipeline_runs_observed"] = sum(len(c["runs"]) for c in pcases)
     # window function level: every range()/cron() form, end points +-1 us, through the real timer_active_check,
     # decided by spec/TimeSpec.tla!Active via spec/TimeTrace.tla (generator and acceptor shared with C06)
     from harness.drivers import c06
